@@ -54,7 +54,7 @@ def parseNew (j : Json) : NewTask :=
     and sources of getargs, `calcDep`; (`deps` above also holds these edges, for the monitors' dependency table) -/
 def parseNewX (j : Json) : NewTask :=
   { name := jnat j "name", deps := jnats j "tdeps", fileDep := jnats j "fileDep", targets := jnats j "targets",
-    act := jbool j "act", setup := jnats j "setup", calcDep := jnats j "calcDep" }
+    act := jbool j "act", setup := jnats j "setup", calcDep := jnats j "calcDep", wild := jnats j "wild" }
 
 structure Case where
   pre : Pre
@@ -68,6 +68,7 @@ structure Case where
   x : Bool := false                                  -- extended model (setup / calc_dep / getargs of created tasks)
   makeTabX : List (CId × Nat × List NewTask) := []
   delivers : List (Nat × List Nat) := []
+  wmatch : List (Nat × List Nat) := []               -- pattern id ↦ the names it matches
 
 def mkMake (tab : List (CId × Nat × List NewTask)) (c : CId) (t : Nat) : List NewTask :=
   match tab.find? (fun e => e.1 == c && e.2.1 == t) with
@@ -105,12 +106,16 @@ def parseCase (j : Json) : Case :=
       | _ => (0, 0, []),
     delivers := (jarr j "delivers").map fun x => match asArr x with
       | [a, l] => (asNat a, (asArr l).map asNat)
+      | _ => (0, []),
+    wmatch := (jarr j "wmatch").map fun x => match asArr x with
+      | [a, l] => (asNat a, (asArr l).map asNat)
       | _ => (0, []) }
 
 def inputOf (c : Case) (st : FState) : Input :=
   { toInput c.pre st (mkMake (if c.x then c.makeTabX else c.makeTab)) c.serial c.cont (fun n => c.utd.contains n)
       (fun n => c.fails.contains n) (fun n => c.noAct.contains n) with
-    delivers := fun n => (lookup0 c.delivers n).getD [] }
+    delivers := fun n => (lookup0 c.delivers n).getD [],
+    wmatch := fun p n => ((lookup0 c.wmatch p).getD []).contains n }
 
 /-! ### the acceptor -/
 
